@@ -774,6 +774,40 @@ func checkC18(p *Prog, r *Report) {
 		})
 	}
 
+	// ---- R18.11 the network monitor belongs to its cycle ----------------------------------------------------------
+	r.Rule("R18.11", "The network-change monitor of a continual-gathering cycle runs under that cycle's cancellable context — the context parameter of gatherCandidates handed down unchanged — never under a task loop's context or a fresh one: Restart's cancel stops it, so it cannot re-gather into the next generation or run beside the next cycle's monitor.", 1)
+	nMon := 0
+	for _, f := range p.AllFuncs {
+		if f.Body == nil || f.Pkg != p.Ice {
+			continue
+		}
+		f := f
+		for _, c := range p.CallsTo(f, false, "ice.Agent.startNetworkMonitoring") {
+			nMon++
+			okCtx := false
+			if len(c.Args) == 1 {
+				if id, isID := unparen(p.Deref(f, c.Args[0])).(*ast.Ident); isID {
+					root := f.Root()
+					// a parameter of the declared function the call sits in (not of a literal in between), and that
+					// function receives the cycle's context from its callers
+					for j := 0; ; j++ {
+						o := p.paramObj(root, j)
+						if o == nil {
+							break
+						}
+						if p.ObjOf(id) == o && typeStr(o.Type()) == "context.Context" {
+							okCtx = root.Name == "Agent.gatherCandidates"
+						}
+					}
+				}
+			}
+			r.Check(okCtx, "network monitor started in "+f.Name, p.Pos(c.Pos()), "startNetworkMonitoring(<the cycle's ctx parameter of gatherCandidates>)", "the monitor is started under a context that is not the gathering cycle's (a task-loop parameter shadowing it, or another context): Restart's cancel no longer stops it, it keeps publishing candidates after Restart and runs beside the next cycle's monitor")
+		}
+	}
+	if nMon == 0 {
+		r.Fail("network monitor start", "gather.go", "no call of startNetworkMonitoring found (rule instance lost)")
+	}
+
 	// ---- R18.9 one end-of-candidates per live cycle ------------------------------------------------------
 	r.Rule("R18.9", "The nil (end-of-candidates) event has exactly one source, and it is taken only by a gathering cycle that has not been cancelled, on the state actually changing, with target Complete (shared with C11 R11.6): a cycle cancelled by Restart never contributes a nil to the next cycle's stream, and repeated completion never yields a second one.", 1)
 	checkCandidateEventSources(p, r, false)
